@@ -190,6 +190,33 @@ func runC07(c *Check) {
 					} else {
 						c.Ok("R2", key+"=false-on-fresh-literal", s.St.Pos(), "provenance", "fresh literal")
 					}
+				} else if cnd := selfOrCond(s.St); cnd != nil {
+					// `UnSafe = UnSafe || c` is `if c { UnSafe = true }`: where c holds Safe must be cleared
+					set := byObj(s.Obj, ta.safe, &fa)
+					ok := len(set) > 0
+					cut := map[*ssa.BasicBlock]bool{}
+					for _, x := range set {
+						cut[x.Block()] = true
+						if x.Block() == s.St.Block() {
+							cut = nil
+							break
+						}
+					}
+					var w []string
+					if ok && cut != nil {
+						guard := boolEdge(func(v ssa.Value) bool { return v == cnd }, false)
+						for _, e := range fn.Blocks {
+							if !isExitBlock(e) || isErrorReturnBlock(e) || e.Comment == "recover" {
+								continue
+							}
+							if r, p := reachAvoid2(s.St.Block(), e, guard, cut); r {
+								ok = false
+								w = pathWitness(fn, p)
+							}
+						}
+					}
+					c.Decide(ok, "R2", key+"=true-with-Safe=false", s.St.Pos(), "coupled-updates", w,
+						"UnSafe raised under a condition is accompanied by Safe=false where the condition holds", "a state is marked UnSafe without Safe being cleared before it is saved/notified (safe and unsafe both set)")
 				} else {
 					// non-constant: must be the complement of the Safe value stored in the same block
 					ok := false
@@ -203,8 +230,10 @@ func runC07(c *Check) {
 							}
 						}
 					}
-					c.Decide(ok && !fromStorage(s.Obj), "R2", key+"=!Safe-on-fresh-literal", s.St.Pos(), "coupled-updates", nil,
-						"UnSafe is the complement of Safe in a fresh literal", "a non-constant UnSafe is stored that is not the complement of the Safe value of the same fresh state")
+					// (on a state that came from storage the Safe store it complements is judged by its own
+					// obligation: possibly true only behind UnSafe==false - so the complement is false only there)
+					c.Decide(ok, "R2", key+"=!Safe-on-fresh-literal", s.St.Pos(), "coupled-updates", nil,
+						"UnSafe is the complement of the Safe value stored with it", "a non-constant UnSafe is stored that is not the complement of the Safe value stored with it on the same state")
 				}
 			case ta.cancelled:
 				if isC && b {
@@ -310,6 +339,8 @@ func runC07(c *Check) {
 	// ---- R6 (shared with C03.R10, added after seeded round 2)
 	c.ruleRemoveReportsBody("R6")
 	c.ruleTrustedOnlyFromTrustedSource("R8")
+	c.ruleEntryNeverReplaced("R9")
+	c.ruleStoredFlagsOnlyRise("R10")
 	c.ruleLoopVisitsAll("R7", "spynode.(*Node).checkTxDelays", func(v ssa.Value) bool {
 		return derivesFromCall(v, "(*storage.TxRepository).GetNewSafe") != nil
 	}, "newly-safe-tx", "the loop over the txs whose delay has passed can be left early: the txs after that point were already marked safe in the repository by GetNewSafe and are never returned again, so they are never reported safe")
